@@ -107,7 +107,14 @@ func (fv *FuncVerifier) takeEdge(st *State, from, to *ssa.BasicBlock) bool {
 		}
 		// loop frame: the function's modifies clause is an implicit invariant of every loop
 		if !li.havocAll {
-			fv.checkFrameAt(st, fmt.Sprintf("L%d@b%d", li.ord, from.Index), token.NoPos)
+			fv.checkFrameFiltered(st, fmt.Sprintf("L%d@b%d", li.ord, from.Index), token.NoPos, func(name string) bool {
+				for p := range li.prefixes {
+					if strings.HasPrefix(name, p) {
+						return true
+					}
+				}
+				return li.havocKeep && !strings.HasPrefix(name, "LK")
+			})
 		}
 		return false
 	}
@@ -144,6 +151,15 @@ func (fv *FuncVerifier) takeEdge(st *State, from, to *ssa.BasicBlock) bool {
 func (fv *FuncVerifier) havocLoop(st *State, li *loopInfo) {
 	if li.havocAll {
 		st.havocAll()
+	} else if li.havocKeep {
+		// locks acquired/released by lock operations inside the loop are havocked by prefix first
+		for p := range li.prefixes {
+			if strings.HasPrefix(p, "LK") {
+				ep := st.havocPrefix(p)
+				fv.enc.loopEpochs[ep] = true
+			}
+		}
+		st.havocAllKeepLocks()
 	} else {
 		for p := range li.prefixes {
 			ep := st.havocPrefix(p)
@@ -325,13 +341,13 @@ func (fv *FuncVerifier) step(st *State, b *ssa.BasicBlock, ins ssa.Instruction) 
 		}
 		st.defers = nil
 	case *ssa.Go:
-		st.havocAll()
+		st.havocAllKeepLocks()
 		enc.havocAllCalls["go statement"] = true
 	case *ssa.Send:
-		st.havocAll()
+		st.havocAllKeepLocks()
 		enc.havocAllCalls["channel send"] = true
 	case *ssa.Select:
-		st.havocAll()
+		st.havocAllKeepLocks()
 		enc.havocAllCalls["select"] = true
 		st.regs[x] = st.freshValue("select", x.Type())
 	case *ssa.Jump:
@@ -556,7 +572,7 @@ func (fv *FuncVerifier) unop(st *State, x *ssa.UnOp) Value {
 		}
 		return Value{Typ: x.Type(), L: []Term{Sub(Sub(IStr(pow2(bits)), I(1)), v.L[0])}}
 	case token.ARROW:
-		st.havocAll()
+		st.havocAllKeepLocks()
 		fv.enc.havocAllCalls["channel receive"] = true
 		return st.freshValue("recv", x.Type())
 	}
